@@ -23,6 +23,13 @@ PIPELINES = {
         "drivers": [{"name": "sessions", "cmd": ["sign-faults", "{cases}", "{out}", "{tier}"], "cases": "MC_Sign"}],
         "min_events": 100,
     },
+    # CA import (C17) and chains to rcgen-generated / imported / OpenSSL-generated issuers (C03)
+    "import": {
+        "variants": ["ring"],
+        "mc": [{"module": "MC_Cert", "workers": 8}, {"module": "MC_Import", "workers": 4}],
+        "drivers": [{"name": "all", "cmd": ["import", "{cases_MC_Cert}", "{cases_MC_Import}", "{out}", "{tier}"], "cases": "MC_Import"}],
+        "min_events": 500,
+    },
     "csr": {
         "variants": ["ring"],
         "mc": [{"module": "MC_Csr", "workers": 8}],
@@ -101,6 +108,12 @@ PROPS = {
     "C14": _p("model_checking", ["pem"], ["C14."],
               "certificate / CSR / CRL for common-name lengths 0..149 (every residue of the DER length modulo 48 is required by a coverage predicate evaluated by TLC) x algorithms (Ed25519 over the full span, P-256/P-384/RSA-2048 sampled, multi-kilobyte RSA certificates with 40 SANs), private and public key PEM per algorithm; distinct by (kind, algorithm, DER length)",
               ops=["Pem"], exhaustive=False),
+    "C17": _p("model_checking", ["import"], ["C17."],
+              "every self-signed case of MC_Cert.Cases (presence product sampled 1:3 in quick, all value sweeps: 512 key-usage sets, path lengths 0..255, prefixes 0..255, SAN / subtree / DN-kind variants, key-id methods, serial classes) is generated, imported through DER and PEM, and re-issued from the imported parameters with the same key; plus OpenSSL-generated CAs over MC_Import.Cases",
+              ops=["ImportCa"], exhaustive=True),
+    "C03": _p("model_checking", ["import", "cert"], ["C03."],
+              "MC_Import.Cases: issuer names = all RDN sequences of 0..2 (quick) / 0..3 (thorough) attributes over 6 types with repetition x string kinds, 4x4 key-identifier methods, 6x(2|6) key algorithms, SKI present/absent; issuer origin in {rcgen direct, rcgen imported via DER/PEM, OpenSSL-generated imported via DER/PEM}; each chain leaf -> original CA judged by OpenSSL and webpki; plus the issuer-name clause on every issuer-signed certificate of MC_Cert",
+              ops=["ImportCa", "Chain", "Cert"], exhaustive=True),
     "C20": _p("model_checking", ["dn"], ["C20."],
               "cases = every sequence of exactly MaxOps (4 quick / 5 thorough) push/remove operations over 3-4 attribute types x 2 values (MC_Names.Histories), each followed by equality probes against freshly built names (same enumeration, proper prefix, reversed, last value changed) and by issuing a certificate whose subject is decoded; plus random walks of length 200 over 10 types and 6 value kinds; distinct by (operation, arguments) event",
               ops=["DnPush", "DnRemove", "DnEq", "DnEncode"], exhaustive=False),
